@@ -238,6 +238,13 @@ Proof.
       rewrite !upd_other by congruence. apply R3.
 Qed.
 
+Corollary alias_log1pexp c c' (s : StA) :
+  shape (s c) -> fresh F c' (rk (s c)) s ->
+  agree c c' (do_log1pexp F r32 c (Rg c) s) (do_log1pexp F r32 c' (Rg c) s).
+Proof.
+  intros Hc Hf. apply log1pexp_indep; [exact Hc| |]; rewrite Hf; [apply shape_null|reflexivity].
+Qed.
+
 (* ---------------------------------------------------------------- Sigmoid *)
 Theorem sigmoid_indep c c' a t (s : StA) :
   shape (s c) -> shape (s c') -> shape (s t) -> rk (s c) = rk (s c') ->
@@ -285,6 +292,61 @@ Proof.
     { rewrite Wc; exact Su. } { rewrite Wc'; exact Su'. } { apply norm_fields in Nwu. tauto. }
     { cbn [rd]. apply norm_jet. exact Nwu. } { cbn [rd]. apply norm_jet. exact Nw. }
     apply (stepres_agree _ _ _ _ _ _ R4).
+Qed.
+
+(* ---------------------------------------------------------------- (2) a scratch argument that is also the operand *)
+(* c.Sigmoid(x, x): the scratch argument IS the argument.  The receiver ends exactly as with a separate
+   scratch scalar (the branch a >= 0 never touches t; the branch a < 0 starts with t.Exp(a) and never reads
+   a again) — what differs is that the ARGUMENT x is destroyed (it holds exp(x) + 1 afterwards), which the
+   signature (a ConstScalar) does not announce. *)
+Lemma agree_refl c (m : res StA) : agree c c m m.
+Proof. destruct m; cbn; reflexivity. Qed.
+
+Theorem sigmoid_scratch_is_argument c x t (s : StA) :
+  shape (s c) -> shape (s x) -> shape (s t) -> rk (s t) = rk (s x) ->
+  c <> x -> t <> c -> t <> x ->
+  agree c c (do_sigmoid F r32 c (Rg x) x s) (do_sigmoid F r32 c (Rg x) t s).
+Proof.
+  intros Hc Hx Ht Hk Hcx Htc Htx. unfold do_sigmoid.
+  destruct (fleb F (zero F) (rval (rd s (Rg x)))); [apply agree_refl|].
+  unfold seqm. cbn [fold_left bind].
+  (* x.Exp(x) | t.Exp(x) *)
+  destruct (mon_rel OExp x (Rg x) s t (Rg x) s Hx Ht (eq_sym Hk) (jet_refl _)) as [R1 _].
+  use_step R1 s1 s1'. cbn [bind].
+  destruct R1 as (Fr1 & Fr1' & Sh1 & Sh1' & N1).
+  (* c.Set(x) | c.Set(t) *)
+  destruct (set_rel c (Rg x) s1 c (Rg t) s1') as [R2 Sz2].
+  { rewrite Fr1 by congruence. exact Hc. } { rewrite Fr1' by congruence. exact Hc. }
+  { rewrite Fr1, Fr1' by congruence. reflexivity. }
+  { cbn [rd]. apply norm_jet. exact N1. }
+  use_step R2 u u'. cbn [bind].
+  destruct R2 as (Fu & Fu' & Su & Su' & Nu).
+  destruct (Sz2 u eq_refl) as [Un Uo]. cbn [rd] in Un, Uo.
+  (* x.Add(x, 1) | t.Add(t, 1) *)
+  destruct (dy_rel OAdd x (Rg x) (Im (one F)) u t (Rg t) (Im (one F)) u') as [R3 Sz3];
+    auto using keeps_self_im_r, jet_im.
+  { rewrite Fu by congruence. exact Sh1. } { rewrite Fu' by congruence. exact Sh1'. }
+  { rewrite Fu, Fu' by congruence. apply norm_fields in N1. tauto. }
+  { cbn [rd]. rewrite Fu, Fu' by congruence. apply norm_jet. exact N1. }
+  use_step R3 w w'. cbn [bind].
+  destruct R3 as (Fw & Fw' & Sw & Sw' & Nw).
+  destruct (Sz3 w eq_refl) as [Wn Wo]. cbn [rd bare rn rorder] in Wn, Wo. rewrite Nat.max_0_r in Wn, Wo.
+  assert (Wc : w c = u c) by (apply Fw; congruence). assert (Wc' : w' c = u' c) by (apply Fw'; congruence).
+  assert (Ux : u x = s1 x) by (apply Fu; congruence).
+  (* receiver and scratch have the same N and Order in both runs: AllocForTwo does nothing *)
+  assert (KD : keeps c (Rg c) (Rg x) w = true).
+  { unfold keeps. cbn [hits rd]. rewrite Nat.eqb_refl. cbn [orb negb].
+    rewrite Wc, Wn, Wo, Ux, Un, Uo, !Nat.max_id, !Nat.eqb_refl. reflexivity. }
+  assert (Nwu : norm (w c) = norm (w' c)) by (rewrite Wc, Wc'; exact Nu).
+  assert (KD' : keeps c (Rg c) (Rg t) w' = true).
+  { unfold keeps. cbn [hits rd]. rewrite Nat.eqb_refl. cbn [orb negb].
+    destruct (norm_fields _ _ Nwu) as [_ [E1n E1o]]. destruct (norm_fields _ _ Nw) as [_ [E2n E2o]].
+    rewrite <- E1n, <- E1o, <- E2n, <- E2o.
+    rewrite Wc, Wn, Wo, Ux, Un, Uo, !Nat.max_id, !Nat.eqb_refl. reflexivity. }
+  destruct (dy_rel ODiv c (Rg c) (Rg x) w c (Rg c) (Rg t) w') as [R4 _]; auto.
+  { rewrite Wc; exact Su. } { rewrite Wc'; exact Su'. } { apply norm_fields in Nwu. tauto. }
+  { cbn [rd]. apply norm_jet. exact Nwu. } { cbn [rd]. apply norm_jet. exact Nw. }
+  apply (stepres_agree _ _ _ _ _ _ R4).
 Qed.
 
 (* ---------------------------------------------------------------- LogAdd / LogSub *)
